@@ -15,10 +15,15 @@ pub exec const EMPTY_WORD: Word ensures EMPTY_WORD[0].val() == 0, EMPTY_WORD[1].
 #[verifier::external_body] pub struct CodeBlockOpaque { _p: u8 }
 /// RPO digest: four field elements (miden-crypto). T4: hashing itself is uninterpreted.
 #[verifier::external_body]
-#[derive(Clone, Copy)]
+#[derive(Clone, Copy, PartialEq, Eq)]
 pub struct Digest { _p: u8 }
 impl Digest {
     pub uninterp spec fn elems(self) -> Seq<int>;
+}
+/// `==` on digests is equality of the four elements, i.e. equality of the values
+impl vstd::std_specs::cmp::PartialEqSpecImpl for Digest {
+    open spec fn obeys_eq_spec() -> bool { true }
+    open spec fn eq_spec(&self, other: &Digest) -> bool { *self == *other }
 }
 } // verus!
 }
